@@ -75,7 +75,16 @@ def observe(ctx, label, fn, witness, reg_before=None):
     try:
         with warnings.catch_warnings():
             warnings.simplefilter("ignore")
-            fn()
+            res = fn()
+            if res is not None and hasattr(res, "serialize") and ("strict" in label.split(" via ")[-1] or "versioned" in label.split(" via ")[-1]):
+                # "a fully validated object": one that customisation did not touch can at least be written out
+                try:
+                    res.serialize()
+                    ctx.count("returned_objects_serialized")
+                except family() as e2:
+                    if "not JSON compliant" in str(e2) or isinstance(e2, OverflowError):
+                        ctx.violation("returned-object-not-serializable", "%s: returned an object whose serialize() raises %s (%s)" % (label, type(e2).__name__, str(e2)[:80]),
+                                      dict(witness, exception=repr(e2)))
         ctx.count("returned")
         return "returned"
     except CaseTimeout:
@@ -259,7 +268,7 @@ def wl_multi(ctx, rng, i):
     check_state(ctx, reg0, {"version": ver, "type": t, "workload": "multi"})
 
 
-DEPTHS = [60, 150, 330, 700, 900]
+DEPTHS = [60, 150, 330, 700, 900, 940, 960, 975, 985, 992]      # up to where this interpreter's json module still decodes from here
 
 
 def wl_deep(ctx, rng, i):
@@ -283,6 +292,8 @@ def wl_deep(ctx, rng, i):
         leaf = rng.choice([1, "x", None, {"type": "identity"}, {"extension_type": "toplevel-property-extension"}])
         v = nested(depth, leaf, kind)
         oo = copy.deepcopy(o)
+        if ver == "2.1" and M.model(ver).types[t]["cat"] == "sco" and rng.random() < 0.5:
+            oo.pop("id", None)            # the identifier is then computed from (possibly very deep) contributing content
         if what == "whole":
             oo = nested(depth, oo, kind) if rng.random() < 0.5 else {"type": "bundle", "id": "bundle--d83fce45-ef58-4c6c-a3f4-1fbc32e98c6e", "objects": nested(depth, oo, "list")}
         elif what == "extension":
@@ -314,6 +325,28 @@ def wl_deep(ctx, rng, i):
         ctx.nontrivial("deep", ver, t, what, depth, kind)
         ctx.count("deep_inputs")
         ctx.see("depths", depth)
+    # the same base with a granular marking whose selector addresses nothing, and a very deep custom property: the walk that
+    # checks selectors runs outside property cleaning
+    if M.model(ver).can_carry_granular(t) and not (ver == "2.0" and M.model(ver).types[t]["cat"] == "sco"):
+        for depth in rng.sample([700, 940, 975, 985, 990, 992, 994], 3):
+            oo = copy.deepcopy(o)
+            oo["x_deep"] = nested(depth, 1, rng.choice(["dict", "mixed"]))
+            oo["granular_markings"] = [{"marking_ref": "marking-definition--d83fce45-ef58-4c6c-a3f4-1fbc32e98c6e", "selectors": ["zzz_no_such_property"]}]
+            try:
+                text = json.dumps(oo)
+                json.loads(text)
+            except (RecursionError, ValueError):
+                continue
+            observe(ctx, "%s %s with a dangling selector and a custom property nested %d deep via parse-text/custom" % (ver, t, depth),
+                    lambda: stix2.parse(text, allow_custom=True), {"version": ver, "type": t, "depth": depth, "selector": "zzz_no_such_property"})
+            ctx.count("deep_selector_walks")
+    # text nested beyond what this interpreter's json module decodes at all: refused through the family, too
+    if i % 5 == 0:
+        for depth in (1500, 20000):
+            for text in ("[" * depth + "]" * depth, '{"type":"identity","x":' + '{"a":' * depth + "1" + "}" * depth + "}"):
+                observe(ctx, "JSON text nested %d levels via parse-text" % depth, lambda: stix2.parse(text), {"depth": depth, "text_head": text[:40]})
+                observe(ctx, "JSON text nested %d levels via parse_observable" % depth, lambda: stix2.parse_observable(text, version="2.1"), {"depth": depth, "text_head": text[:40]})
+                ctx.count("undecodable_texts")
     check_state(ctx, reg0, {"version": ver, "type": t, "workload": "deep"})
 
 
@@ -383,6 +416,75 @@ def wl_shadow(ctx, rng, i):
     if not ok:
         ctx.violation("failed-parse-left-state-behind", "after a %s parse of the unregistered type %s (%s), registering it does not make it parse to its class: %s" % (pre, name, first, how),
                       dict(w, pre=pre, first=first, outcome=how))
+
+
+def wl_subclass(ctx, rng, i):
+    """A subclass of a public class is constructed like the class itself."""
+    ver, bname = BASES[i % len(BASES)]
+    g = ObjGen(rng, ver, hostile=False, ts_max_digits=6, openvocab_custom=False)
+    t, o = make_base(g, ver, bname, "random", granular=False)
+    cls = cls_for(ver, t)
+    if cls is None or validator.validate(o, ver):
+        ctx.skip("generator error")
+        return
+    sub = type("Sub" + cls.__name__, (cls,), {})
+    r = observe(ctx, "%s subclass of %s via constructor" % (ver, cls.__name__), lambda: sub(**json.loads(json.dumps(o))), {"version": ver, "type": t, "input": o})
+    ctx.count("subclass_constructions")
+    ctx.nontrivial("subclass", ver, t)
+    if r == "family":
+        try:
+            cls(**json.loads(json.dumps(o)))
+            ctx.violation("subclass-refused", "a plain subclass of %s refuses what the class accepts" % cls.__name__, {"version": ver, "type": t, "input": o})
+        except Exception:
+            pass
+
+
+def wl_stores(ctx, rng, i):
+    """A failed add leaves the stores as they were (also for dictionary-kept objects and on disk)."""
+    import os
+    import shutil
+    import tempfile
+    import stix2
+    u = "d83fce45-ef58-4c6c-a3f4-1fbc32e98c%02x" % (i % 250)
+    good = {"type": "x-stixmon-kept", "id": "x-stixmon-kept--" + u, "created": "2020-01-01T00:00:00Z", "modified": "2020-01-01T00:00:00Z", "name": "v1"}
+    bads = [dict(good, modified=rng.choice([3, [], {}, None, True, 1.5, "junk", ["2020-01-01T00:00:00Z"]]), name="bad"),
+            dict(good, id="x-stixmon-kept--" + u[:-2] + "ff", modified=rng.choice([[], {}, 3]), name="bad-first")]
+    tmp = tempfile.mkdtemp(prefix="stixmon-c17-")
+    try:
+        ms = stix2.MemoryStore()
+        fs = stix2.FileSystemStore(tmp, allow_custom=True)
+        ms.add(dict(good))
+        fs.add(dict(good))
+
+        def snap_mem():
+            return sorted(json.dumps(x, sort_keys=True, default=str) for x in ms.query()) + [repr(ms.get(b["id"])) for b in bads[1:]]
+
+        def snap_fs():
+            return sorted(os.path.join(dp, f)[len(tmp):] + ":%d" % os.path.getsize(os.path.join(dp, f)) for dp, dn, fn in os.walk(tmp) for f in fn + dn)
+        unserial = stix2.v21.Identity(id="identity--" + u, name="n", x_inf=float(rng.choice(["inf", "-inf", "nan"])), allow_custom=True)
+        for label, store, snapf, item in [("MemoryStore", ms, snap_mem, b) for b in bads] + [("FileSystemStore", fs, snap_fs, b) for b in bads] + \
+                [("FileSystemStore", fs, snap_fs, unserial)]:
+            before = snapf()
+            try:
+                with warnings.catch_warnings():
+                    warnings.simplefilter("ignore")
+                    store.add(item if not isinstance(item, dict) else dict(item))
+                continue            # accepted: not this clause's business
+            except Exception:
+                pass
+            ctx.ev()
+            ctx.count("store_unchanged_checks")
+            ctx.count("failed_adds_judged")
+            try:
+                after = snapf()
+            except Exception as e:
+                after = ["<reading the store failed: %r>" % (e,)]
+            if after != before:
+                ctx.violation("store-changed-by-failed-add", "%s contents changed although add() raised" % label,
+                              {"store": label, "item": repr(item)[:300], "before": before[:6], "after": after[:6]})
+        ctx.nontrivial("stores", i % 50)
+    finally:
+        shutil.rmtree(tmp, ignore_errors=True)
 
 
 def junk(rng, depth):
@@ -575,6 +677,8 @@ WORKLOADS = [
     Workload("multi", wl_multi, quick=lambda: len(BASES) * 2, thorough=lambda: len(BASES) * 120),
     Workload("deep", wl_deep, quick=lambda: len(BASES), thorough=lambda: len(BASES) * 40),
     Workload("shadow", wl_shadow, quick=40, thorough=1000),
+    Workload("subclasses", wl_subclass, quick=lambda: len(BASES), thorough=lambda: len(BASES) * 4),
+    Workload("stores", wl_stores, quick=40, thorough=1000),
 ]
 
 
